@@ -7,6 +7,7 @@ same verdict for both spellings (benign-edit robustness; see DESIGN 10.3d):
                                                         the test of a conditional expression is never a negation)
   not (a == b) / (a != b)      ->  a != b / a == b      (also `is`, `in`; single-operator comparisons only; the default __ne__ is the negation of __eq__,
                                                         and no class of the package defines __ne__ -- checked, otherwise the rewrite is skipped for the module set)
+  not (A and B) / not (A or B) ->  not A or not B / not A and not B   (De Morgan, only when A and B are such comparisons or negations themselves)
   a < b <= c                   ->  a < b and b <= c     (when the shared operand is a name, attribute chain or constant: evaluated twice = once)
   if c: A else: B              ->  if c: A ; B          (when exactly one branch ends in return/raise/continue/break: guard-clause form, the
                                                         terminating branch first, test negated if needed; elif chains are left alone)
@@ -63,12 +64,26 @@ class _Canon(ast.NodeTransformer):
             node = ast.copy_location(ast.IfExp(test=pos, body=node.orelse, orelse=node.body), node)
         return node
 
+    def _negatable(self, v: ast.expr) -> bool:
+        if isinstance(v, ast.UnaryOp) and isinstance(v.op, ast.Not):
+            return True
+        return isinstance(v, ast.Compare) and len(v.ops) == 1 and type(v.ops[0]) in _NEG and (self.negate_cmp or not isinstance(v.ops[0], (ast.Eq, ast.NotEq)))
+
+    def _negate(self, v: ast.expr) -> ast.expr:
+        if isinstance(v, ast.UnaryOp) and isinstance(v.op, ast.Not):
+            return v.operand
+        return ast.copy_location(ast.Compare(left=v.left, ops=[_NEG[type(v.ops[0])]()], comparators=v.comparators), v)
+
     def visit_UnaryOp(self, node: ast.UnaryOp) -> ast.AST:
         self.generic_visit(node)
         if isinstance(node.op, ast.Not):
             inner = node.operand
             if isinstance(inner, ast.UnaryOp) and isinstance(inner.op, ast.Not) and isinstance(inner.operand, ast.Compare):
                 return inner.operand  # not not <comparison>: a comparison already yields a bool
+            if isinstance(inner, ast.BoolOp) and all(self._negatable(v) for v in inner.values):
+                # De Morgan, only when every operand has a direct negation (comparisons with ==, is, in and their opposites; not X): negations sit on the atoms
+                flipped = ast.Or() if isinstance(inner.op, ast.And) else ast.And()
+                return ast.copy_location(ast.BoolOp(op=flipped, values=[self._negate(v) for v in inner.values]), node)
             if isinstance(inner, ast.Compare) and len(inner.ops) == 1 and type(inner.ops[0]) in _NEG:
                 if self.negate_cmp or not isinstance(inner.ops[0], (ast.Eq, ast.NotEq)):
                     return ast.copy_location(ast.Compare(left=inner.left, ops=[_NEG[type(inner.ops[0])]()], comparators=inner.comparators), node)
@@ -133,8 +148,75 @@ def _guard_clauses(tree: ast.AST) -> None:
         _guard_clauses(tree)  # statements moved out of an else are visited on the next pass
 
 
-def canonicalise(tree: ast.Module, negate_cmp: bool = True) -> ast.Module:
+# --------------------------------------------------------------------------- argument passing style
+def signature_table(trees) -> dict:
+    """What a call can be bound against without type information: {'class': {name: params}, 'func': {name: params}, 'method': {name: params}} where a name is
+    listed only when every definition of it in the package has the same parameter names (so the binding does not depend on dispatch)."""
+    classes, funcs, methods, own = {}, {}, {}, {}
+
+    def params(fn: ast.FunctionDef, drop_first: bool):
+        a = fn.args
+        if a.vararg or a.posonlyargs:
+            return None
+        names = [x.arg for x in a.args]
+        return tuple(names[1:] if drop_first and names else names)
+
+    for tree in trees:
+        for st in tree.body:
+            if isinstance(st, ast.FunctionDef):
+                funcs.setdefault(st.name, set()).add(params(st, False))
+        for c in ast.walk(tree):
+            if isinstance(c, ast.ClassDef):
+                init = [f for f in c.body if isinstance(f, ast.FunctionDef) and f.name == "__init__"]
+                classes.setdefault(c.name, set()).add(params(init[0], True) if len(init) == 1 else None)
+                for f in c.body:
+                    if isinstance(f, ast.FunctionDef) and f.name != "__init__":
+                        static = any(isinstance(d, ast.Name) and d.id == "staticmethod" for d in f.decorator_list)
+                        methods.setdefault(f.name, set()).add(params(f, not static))
+                        own.setdefault((c.name, f.name), set()).add(params(f, not static))
+    pick = lambda d: {k: next(iter(v)) for k, v in d.items() if len(v) == 1 and next(iter(v)) is not None}  # noqa: E731
+    return {"class": pick(classes), "func": pick(funcs), "method": pick(methods), "own": pick(own)}
+
+
+class _ArgStyle(ast.NodeVisitor):
+    """A keyword argument that names the very next positional parameter is written positionally (f(a, b=x) -> f(a, x) when b is the second parameter)."""
+
+    def __init__(self, sigs: dict, rebound: Set[str]) -> None:
+        self.sigs, self.rebound = sigs, rebound
+        self.cls: list = []
+
+    def visit_ClassDef(self, node: ast.ClassDef) -> None:
+        self.cls.append(node.name)
+        self.generic_visit(node)
+        self.cls.pop()
+
+    def visit_Call(self, node: ast.Call) -> None:
+        self.generic_visit(node)
+        if any(isinstance(a, ast.Starred) for a in node.args) or any(k.arg is None for k in node.keywords) or not node.keywords:
+            return
+        f, ps = node.func, None
+        if isinstance(f, ast.Name) and f.id not in self.rebound - set(self.sigs["func"]) - set(self.sigs["class"]):
+            ps = self.sigs["class"].get(f.id) or self.sigs["func"].get(f.id)
+        elif isinstance(f, ast.Attribute):
+            recv = f.value
+            on_self = isinstance(recv, ast.Name) and recv.id in ("self", "cls")
+            if on_self and self.cls and (self.cls[-1], f.attr) in self.sigs["own"]:
+                ps = self.sigs["own"][(self.cls[-1], f.attr)]  # the enclosing class's own method (always the target for a private name)
+            elif f.attr in self.sigs["method"] and not f.attr.startswith("__") and (on_self or (isinstance(recv, ast.Name) and recv.id in self.sigs["class"]) or (isinstance(recv, ast.Call) and isinstance(recv.func, ast.Name) and recv.func.id == "super")):
+                ps = self.sigs["method"][f.attr]
+        if not ps:
+            return
+        kws = {k.arg: k for k in node.keywords}
+        while len(node.args) < len(ps) and ps[len(node.args)] in kws:
+            k = kws.pop(ps[len(node.args)])
+            node.args.append(k.value)
+            node.keywords.remove(k)
+
+
+def canonicalise(tree: ast.Module, negate_cmp: bool = True, sigs: dict = None) -> ast.Module:
     out = _Canon(_rebound(tree), negate_cmp).visit(tree)
     _guard_clauses(out)
+    if sigs is not None:
+        _ArgStyle(sigs, _rebound(tree)).visit(out)
     ast.fix_missing_locations(out)
     return out
